@@ -362,7 +362,7 @@ impl Prop for C17 {
 		 (T) truncation at EVERY byte offset x reader kinds {slice, SimSource Whole, Fixed(1), Fixed(3), BufReader(7)}; (S) every byte of every trailing sync marker damaged; \
 		 (N) every block's object count rewritten to count-1, count+1, 0, 2^40, i64::MAX, -count, -1, i64::MIN (varint re-encoded); (Z) the same for the byte size; (K) snappy: each CRC byte and sampled payload bytes damaged; \
 		 (B) one byte xored at every offset (sampled above the cap); (E) an I/O error of kind Other | UnexpectedEof | Interrupted at EVERY source call index of four stream reader kinds. \
-		 An evaluation is one complete read of one damaged file (or one faulty source). Every case is non-trivial (a fault is always applied); distinct = distinct (fault kind, file region hit, codec, reader kind class, result shape class such as 'VEN'). One file in 25 carries a value of 10-140 KB (sizes around 64 KiB included); damaged counts are also read through the iterator adaptors, which are held to the size_hint contract; a damaged byte inside a payload leaves the declared counts genuine, so the reader must then reach the end of the stream within the call budget."
+		 An evaluation is one complete read of one damaged file (or one faulty source). Every case is non-trivial (a fault is always applied); distinct = distinct (fault kind, file region hit, codec, reader kind class, result shape class such as 'VEN'). One file in 60 is LONG (250-1200 blocks, or more than 65 535 objects in one block, or — reference-written — a run of up to 20 000 consecutive blocks without objects): the per-block fault classes are then enumerated for a sample of the blocks (both ends, around the 256th, four drawn) and 160 cases are drawn from the whole enumeration. One file in 25 carries a value of 10-140 KB (sizes around 64 KiB included); damaged counts are also read through the iterator adaptors, which are held to the size_hint contract; a damaged byte inside a payload leaves the declared counts genuine, so the reader must then reach the end of the stream within the call budget."
 	}
 	fn assumptions(&self) -> Vec<String> {
 		vec![
